@@ -253,9 +253,12 @@ def sequential_reference(hid):
 
 # (harness, granularity, bound) per tier; completed in this order
 PLAN = {
-    "quick": [(h, "coarse", 2) for h in HARNESSES] + [(h, "shared", 1) for h in HARNESSES if h != "H7x"],
+    # bound 99 = no preemption bound at all: every interleaving of the lock / event / thread / write operations
+    "quick": [(h, "coarse", 2) for h in HARNESSES] + [(h, "shared", 1) for h in HARNESSES if h != "H7x"]
+             + [(h, "coarse", 99) for h in ("H1", "H2")],
     "thorough": [(h, "coarse", 3) for h in HARNESSES] + [(h, "line", 1) for h in HARNESSES]
-                + [(h, "shared", 2) for h in ("H1", "H2", "H9", "H4", "H11", "H13")],
+                + [(h, "shared", 2) for h in ("H1", "H2", "H9", "H4", "H11", "H13")]
+                + [(h, "coarse", 99) for h in ("H1", "H2", "H11", "H13", "H4", "H9", "H15", "H12")],
 }
 NSPLIT = {"coarse": 4, "shared": 16, "line": 16}
 
@@ -263,7 +266,7 @@ NSPLIT = {"coarse": 4, "shared": 16, "line": 16}
 def plan(tier, seed):
     shards = []
     for h, gran, bound in PLAN[tier]:
-        n = NSPLIT[gran] if bound >= 2 or gran != "coarse" else 1
+        n = 16 if bound >= 99 and h not in ("H1", "H2") else (NSPLIT[gran] if bound >= 2 or gran != "coarse" else 1)
         for i in range(n):
             shards.append({"h": h, "gran": gran, "bound": bound, "i": i, "n": n})
     return shards
